@@ -2,12 +2,17 @@
    (ExtrOcamlZBigInt): the statistics of a 300-sample column of doubles are rationals with
    numerators of several hundred bits, far too slow on the unary-binary inductives.
    Extension: the binary64 twin (C14_FloatDefs) goes into the same module; primitive floats / 63-bit integers map to
-   OCaml's native floats / Uint63 of coq-core.kernel (ExtrOCamlFloats, ExtrOCamlInt63). *)
+   OCaml's native floats / Uint63 of coq-core.kernel (ExtrOCamlFloats, ExtrOCamlInt63).
+   Second extension: C14_Float2Defs (scaled columns of the twin) and C14_WrapDefs (linear_t::fit / predict as compositions). *)
 From Coq Require Import List ZArith QArith Floats Extraction ExtrOcamlBasic ExtrOcamlZBigInt ExtrOCamlFloats ExtrOCamlInt63.
-From LN Require Import C14_Defs C14_FloatDefs.
+From LN Require Import C14_Defs C14_FloatDefs C14_Float2Defs C14_WrapDefs.
 Extraction Language OCaml.
 Extraction "extracted/c14_model.ml" qlt qmin qmax acc0 update1 accumulate accumulate_batched finite var_of done1
   col_stats mode_of_Z scale1 upscale1 scale_row upscale_row scaling_w scaling_b dot up_bias up_wrow
   batches qred_stats Qred Qplus Qminus Qmult Qdiv Qopp Qle_bool Qeq_bool inject_Z
   fmax_cpp fmin_cpp fscale_one fupscale_one f_off f_div f_mul chain_finite facc0 fupdate1 faccumulate fdone fcol_stats
-  fmk_w fmk_b fup_w fup_b fup_term feq_bits float_of_count var_finite.
+  fmk_w fmk_b fup_w fup_b fup_term feq_bits float_of_count var_finite
+  (* second extension: scaled columns of the twin, the wrappers of src/linear.cpp *)
+  ffin_entries fscale_col scale_finite col_scale_finite fcol_acc
+  Z_of_mode lin_store fit_mode_f fit_mode_t train_mode fit_store predict_mode lin_predict wrap_predict scaled_outputs ref_predict
+  zero_missing miss_vec miss_terms qadd_list.
